@@ -316,7 +316,7 @@ class Evaluator:
         args = [self.ev(a) for a in node.args]
         kw = {k.arg: self.ev(k.value) for k in node.keywords}
         # np.<fn>
-        if isinstance(f, ast.Attribute) and isinstance(f.value, ast.Name) and f.value.id == "np":
+        if isinstance(f, ast.Attribute) and isinstance(f.value, ast.Name) and f.value.id in ("np", "numpy", "math"):
             return self.np_call(f.attr, args, kw)
         if isinstance(f, ast.Attribute) and isinstance(f.value, ast.Attribute) and isinstance(f.value.value, ast.Name) \
                 and f.value.value.id == "np":
@@ -339,6 +339,8 @@ class Evaluator:
                 return Sym(f"np.random.{f.attr}")
             if f.attr in SHAPE_ONLY_METHODS:
                 return recv
+            if f.attr in ("any", "all") and not args:
+                return Sym(f"{f.attr}({describe(recv)})")
             if f.attr in RNG_PRIMS:
                 # a draw on some other object than the checked generator
                 self.calls.append({"on": describe(recv), "prim": f.attr, "args": args, "kw": kw})
@@ -519,11 +521,18 @@ GUARD_TOKENS = {
     "not(allclose(idx(scale,k),T(idx(scale,k))))": "symmetric",
     "any(ne(idx(scale,k),T(idx(scale,k))))": "symmetric",
     "not(all(eq(idx(scale,k),T(idx(scale,k)))))": "symmetric",
+    "not(array_equal(idx(scale,k),T(idx(scale,k))))": "symmetric",
+    "not(allclose(T(idx(scale,k)),idx(scale,k)))": "symmetric",
 }
 STD_TOKENS = {
     "idx(scale,k)": "scale[k]",
     "sqrt(idx(scale,k))": "sqrt(scale[k])",
     "pow(idx(scale,k),1/2)": "sqrt(scale[k])",
+    "sqrt(idx(scale,[k,0]))": "sqrt(scale[k])",
+    "sqrt(idx(idx(scale,k),0))": "sqrt(scale[k])",
+    "idx(sqrt(scale),k)": "sqrt(scale[k])",
+    "idx(scale,[k,0])": "scale[k]",
+    "idx(idx(scale,k),0)": "scale[k]",
 }
 
 
@@ -531,11 +540,17 @@ def _is_raise(body):
     return len(body) == 1 and isinstance(body[0], ast.Raise)
 
 
-def _guard_token(ev, test, prefix=""):
+def _guard_tokens(ev, test, prefix=""):
+    """tokens of one `if <test>: raise`; `a or b` with unknown whole is the sequence of its disjuncts"""
     c = prefix + describe(ev.ev(test))
-    if c not in GUARD_TOKENS:
-        raise TranslationFailure(f"draw_gmm: unrecognised validity test `{c}`")
-    return GUARD_TOKENS[c]
+    if c in GUARD_TOKENS:
+        return [GUARD_TOKENS[c]]
+    if isinstance(test, ast.BoolOp) and isinstance(test.op, ast.Or):
+        out = []
+        for v in test.values:
+            out += _guard_tokens(ev, v, prefix)
+        return out
+    raise TranslationFailure(f"draw_gmm: unrecognised validity test `{c}`")
 
 
 def _range_loop(ev, st):
@@ -576,11 +591,11 @@ def draw_gmm_unit(tree):
         if isinstance(st, ast.If) and _is_raise(st.body) and not st.orelse:
             if ev.generator is not None and out["choice"] is not None:
                 raise TranslationFailure("draw_gmm: top-level guard after the draws")
-            out["common"].append(_guard_token(ev, st.test))
+            out["common"] += _guard_tokens(ev, st.test)
             continue
         if isinstance(st, ast.If) and describe(ev.ev(st.test)) == "ne(d,1)" and not st.orelse and len(st.body) == 1 \
                 and isinstance(st.body[0], ast.If) and _is_raise(st.body[0].body):
-            out["common"].append(_guard_token(ev, st.body[0].test, "ne(d,1)=>"))
+            out["common"] += _guard_tokens(ev, st.body[0].test, "ne(d,1)=>")
             continue
         if isinstance(st, ast.Assign) and isinstance(st.value, ast.Call) and isinstance(st.value.func, ast.Name) \
                 and st.value.func.id == "check_random_state":
@@ -614,7 +629,7 @@ def draw_gmm_unit(tree):
                         if isinstance(inner, ast.If) and _is_raise(inner.body) and not inner.orelse:
                             if out[dkey] is not None:
                                 raise TranslationFailure("draw_gmm: guard after the component draws")
-                            out[gkey].append(_guard_token(ev, inner.test))
+                            out[gkey] += _guard_tokens(ev, inner.test)
                         elif isinstance(inner, ast.AugAssign) and isinstance(inner.value, ast.List) and len(inner.value.elts) == 1 \
                                 and isinstance(inner.target, ast.Name) and inner.target.id == xs_name:
                             n0 = len(ev.calls)
